@@ -343,6 +343,7 @@ func checkC15(p *core.Program, r *core.Report) {
 
 	// ------------------------------------------------------------------ R3 + R4
 	c15R3R4(p, r, evalCWV, numCmp, dateCmp, textCmp, ops)
+	c15TextNormalisation(p, r, textCmp)
 
 	// ------------------------------------------------------------------ R5
 	c15R5(p, r, evalNode)
@@ -1264,4 +1265,70 @@ func c15PresenceGuards(p *core.Program, r *core.Report, fn *ssa.Function, name s
 		}
 	})
 	return nG
+}
+
+// c15TextNormalisation (R1): the two texts textComparison compares are normalised alike — wherever it compares (==, !=)
+// or hands on (strings.Contains, the tokenised prefix match) a pair of values derived from its two text parameters,
+// the same strings.* normalising calls lie behind both. `= "bob"` otherwise depends on blanks or case in the stored
+// value but not in the query (or the reverse), and `=` / `!=` on equal-looking texts are no longer complementary
+// across the two sides.
+func c15TextNormalisation(p *core.Program, r *core.Report, textCmp *ssa.Function) {
+	if textCmp == nil {
+		return
+	}
+	var pars []*ssa.Parameter
+	for _, q := range textCmp.Params {
+		if bt, ok := q.Type().Underlying().(*types.Basic); ok && bt.Info()&types.IsString != 0 && core.ShortType(q.Type()) == "string" {
+			pars = append(pars, q)
+		}
+	}
+	if len(pars) != 2 {
+		r.Unknown("R1", "textComparison/two-text-operands", p.Pos(textCmp.Pos()), fmt.Sprintf("textComparison has %d plain string parameters, expected the stored text and the query text", len(pars)))
+		return
+	}
+	norm := func(v ssa.Value) (string, *ssa.Parameter) {
+		set := map[string]bool{}
+		var from *ssa.Parameter
+		for w := range core.BackSlice(v, func(*ssa.Call) bool { return true }) {
+			if c, ok := w.(*ssa.Call); ok {
+				if o := core.CalleeObj(&c.Call); o != nil && strings.HasPrefix(core.ObjName(o), "strings.") {
+					set[o.Name()] = true
+				}
+			}
+			if q, ok := w.(*ssa.Parameter); ok && (q == pars[0] || q == pars[1]) {
+				if from != nil && from != q {
+					return "", nil // derived from both: not one side of a comparison
+				}
+				from = q
+			}
+		}
+		return strings.Join(core.SortedKeys(set), "+"), from
+	}
+	n := 0
+	check := func(x, y ssa.Value, pos token.Pos, what string) {
+		nx, fx := norm(x)
+		ny, fy := norm(y)
+		if fx == nil || fy == nil || fx == fy {
+			return
+		}
+		n++
+		r.Check(nx == ny, "R1", fmt.Sprintf("textComparison/%s#%d/both-sides-normalised-alike", what, n), p.Pos(pos), "both through "+nx,
+			fmt.Sprintf("textComparison compares %s (normalised by [%s]) with %s (normalised by [%s]): blanks or case count on one side only", fx.Name(), nx, fy.Name(), ny))
+	}
+	core.EachInstr(textCmp, false, func(_ *ssa.Function, in ssa.Instruction) {
+		switch x := in.(type) {
+		case *ssa.BinOp:
+			if x.Op == token.EQL || x.Op == token.NEQ {
+				check(x.X, x.Y, x.Pos(), x.Op.String())
+			}
+		case *ssa.Call:
+			if len(x.Call.Args) >= 2 && !x.Call.IsInvoke() {
+				if o := core.CalleeObj(&x.Call); o != nil && (core.ObjName(o) == "strings.Contains" || core.InModule(o.Pkg().Path())) {
+					check(x.Call.Args[0], x.Call.Args[1], x.Pos(), o.Name())
+				}
+			}
+		}
+	})
+	r.Count("text_comparison_pairs", n)
+	r.Require("text_comparison_pairs", n, 2)
 }
